@@ -1512,3 +1512,111 @@ Proof.
   eexists. split; [reflexivity|]. norm_state. rewrite hp_popn, sp_popn, hp_pop1, sp_pop1.
   repeat split; try congruence. rewrite Hsp1, rev_length, len_length, map_length. lia.
 Qed.
+
+(* string comparison folds *)
+Lemma string_comp_loop_spec comp s l : forall ts y ty res s0 rest,
+  Forall2 (lookup s) l ts -> lookup s y ty -> st s0 = st s ->
+  top_is s0 (map VStr l ++ rest) ->
+  string_comp_loop comp (length l) y res s0 = ROk (chain_from comp ty ts res) (popn (length l) s0)
+  /\ top_is (popn (length l) s0) rest.
+Proof.
+  induction l as [|x l IH]; intros ts y ty res s0 rest HF Hy Hst Ht; inversion HF; subst;
+    cbn [map app length string_comp_loop popn chain_from] in *.
+  - split; [reflexivity|exact Ht].
+  - destruct (pop_string_top _ _ _ Ht I) as [E T]. cbn [as_string opt_res] in E.
+    rewrite (bindM_ok _ _ _ _ _ E).
+    rewrite (bindM_ok _ _ _ _ _ (str_get_ok (pop1 s0) y ty ltac:(rewrite st_pop1, Hst; assumption))).
+    rewrite (bindM_ok _ _ _ _ _ (str_get_ok (pop1 s0) x y0 ltac:(rewrite st_pop1, Hst; assumption))).
+    apply (IH l' x y0 _ (pop1 s0) rest H3 H1 ltac:(now rewrite st_pop1) T).
+Qed.
+
+Theorem string_comp_refines comp s sids ts :
+  stack_ok s -> Forall2 (lookup s) sids ts -> sids <> [] ->
+  returns (run_builtin (string_comp comp) (map VStr sids) s) s (VBool (chain comp ts)) (st s).
+Proof.
+  intros Hok HF Hne. enter_raw Hok s1. unfold string_comp.
+  assert (Hlen : 1 <= len (map VStr sids)).
+  { rewrite len_length, map_length. destruct sids; [congruence|cbn [length]; lia]. }
+  pop_argc_ 1 (@None N).
+  apply Forall2_rev' in HF. rewrite <- map_rev in T.
+  destruct (rev sids) as [|y l] eqn:Hr.
+  { apply (f_equal (@rev N)) in Hr. rewrite rev_involutive in Hr. cbn in Hr. congruence. }
+  inversion HF as [|? ty ? tl Hy HF' E1 E2]; subst. cbn [map] in T.
+  destruct (pop_string_top _ _ _ T I) as [E T2]. cbn [as_string opt_res] in E.
+  rewrite (bindM_ok _ _ _ _ _ E).
+  replace (N.to_nat (len (map VStr sids) - 1)) with (length l).
+  2:{ rewrite len_length, map_length, <- (rev_length sids), Hr. cbn [length]. lia. }
+  rewrite <- (app_nil_r (map VStr l)) in T2.
+  destruct (string_comp_loop_spec comp s l tl y ty true (pop1 (pop1 s1)) [] HF' Hy Hst1 T2) as [E3 T3].
+  rewrite (bindM_ok _ _ _ _ _ E3). unfold ret.
+  rewrite chain_from_spec. cbn [andb].
+  replace (rev tl ++ [ty]) with ts.
+  2:{ rewrite <- (rev_involutive ts), <- E2. reflexivity. }
+  eexists. split; [reflexivity|]. rewrite st_popn, hp_popn, sp_popn. norm_state.
+  repeat split; try congruence.
+  rewrite Hsp1, len_length, map_length, <- (rev_length sids), Hr. cbn [length]. lia.
+Qed.
+
+(* the orderings: every adjacent pair in lexicographic order of the scalar values *)
+Corollary string_cmp_refines o s sids ts :
+  stack_ok s -> Forall2 (lookup s) sids ts -> sids <> [] ->
+  returns (run_builtin (string_cmp o) (map VStr sids) s) s
+    (VBool (chain (fun x y => cmp_holds o (lex_cmp x y)) ts)) (st s).
+Proof.
+  intros Hok HF Hne. pose proof (string_comp_refines (str_comp o) s sids ts Hok HF Hne) as H.
+  replace (chain (fun x y => cmp_holds o (lex_cmp x y)) ts) with (chain (str_comp o) ts); [exact H|].
+  clear. induction ts as [|x [|y tl] IH]; cbn [chain] in *; try reflexivity.
+  now rewrite IH, str_comp_spec.
+Qed.
+
+Corollary string_ci_cmp_refines o s sids ts :
+  stack_ok s -> Forall2 (lookup s) sids ts -> sids <> [] ->
+  returns (run_builtin (string_ci_cmp o) (map VStr sids) s) s
+    (VBool (chain (fun x y => cmp_holds o (lex_cmp (str_to_lowercase x) (str_to_lowercase y))) ts)) (st s).
+Proof.
+  intros Hok HF Hne. pose proof (string_comp_refines (str_ci_comp o) s sids ts Hok HF Hne) as H.
+  replace (chain (fun x y => cmp_holds o (lex_cmp (str_to_lowercase x) (str_to_lowercase y))) ts)
+    with (chain (str_ci_comp o) ts); [exact H|].
+  clear. induction ts as [|x [|y tl] IH]; cbn [chain] in *; try reflexivity.
+  now rewrite IH, str_ci_comp_spec.
+Qed.
+
+(* character comparison folds *)
+Lemma char_comp_loop_spec comp l : forall y res s0 rest,
+  top_is s0 (map VChar l ++ rest) ->
+  char_comp_loop comp (length l) y res s0 = ROk (chain_from comp y l res) (popn (length l) s0)
+  /\ top_is (popn (length l) s0) rest.
+Proof.
+  induction l as [|x l IH]; intros y res s0 rest Ht;
+    cbn [map app length char_comp_loop popn chain_from] in *.
+  - split; [reflexivity|exact Ht].
+  - destruct (pop_char_top _ _ _ Ht I) as [E T]. cbn [as_char opt_res] in E.
+    rewrite (bindM_ok _ _ _ _ _ E). apply (IH x _ (pop1 s0) rest T).
+Qed.
+
+Theorem char_comp_refines comp s cs :
+  stack_ok s -> cs <> [] ->
+  returns (run_builtin (char_comp comp) (map VChar cs) s) s (VBool (chain comp cs)) (st s).
+Proof.
+  intros Hok Hne. enter_raw Hok s1. unfold char_comp.
+  assert (Hlen : 1 <= len (map VChar cs)).
+  { rewrite len_length, map_length. destruct cs; [congruence|cbn [length]; lia]. }
+  pop_argc_ 1 (@None N).
+  rewrite <- map_rev in T.
+  destruct (rev cs) as [|y l] eqn:Hr.
+  { exfalso. apply Hne. rewrite <- (rev_involutive cs), Hr. reflexivity. }
+  cbn [map] in T.
+  destruct (pop_char_top _ _ _ T I) as [E T2]. cbn [as_char opt_res] in E.
+  rewrite (bindM_ok _ _ _ _ _ E).
+  replace (N.to_nat (len (map VChar cs) - 1)) with (length l).
+  2:{ rewrite len_length, map_length, <- (rev_length cs), Hr. cbn [length]. lia. }
+  rewrite <- (app_nil_r (map VChar l)) in T2.
+  destruct (char_comp_loop_spec comp l y true _ [] T2) as [E3 T3].
+  rewrite (bindM_ok _ _ _ _ _ E3). unfold ret.
+  rewrite chain_from_spec. cbn [andb].
+  replace (rev l ++ [y]) with cs.
+  2:{ rewrite <- (rev_involutive cs), Hr. reflexivity. }
+  eexists. split; [reflexivity|]. rewrite st_popn, hp_popn, sp_popn. norm_state.
+  repeat split; try congruence.
+  rewrite Hsp1, len_length, map_length, <- (rev_length cs), Hr. cbn [length]. lia.
+Qed.
